@@ -19,6 +19,12 @@ ObsOf(x) == [k \in 1..N12 |-> IF x.miss /\ k = 3 THEN NaN ELSE R(ObsPat(x.obs)[k
 C1(x, i) == [k \in 1..N12 |-> Frac(CdfPat(x.c[i])[k], 8)]
 C2(x, i) == [k \in 1..N12 |-> Frac(Cdf2(CdfPat(x.c[i])[k]), 8)]
 PitOf(x, i) == [k \in 1..N12 |-> Frac((CdfPat(x.c[i])[k] + k) % 9, 8)]
+\* deterministic forecast and the quantiles 0.1 / 0.5 / 0.9 (third tranche): spreads between 2 and 5, forecast errors 0..2
+QMid(x, i)  == [k \in 1..N12 |-> R((ObsPat(x.obs)[k] + CdfPat(x.c[i])[k]) % 4)]
+QLow(x, i)  == [k \in 1..N12 |-> Sub(QMid(x, i)[k], R(1 + (k % 2)))]
+QHigh(x, i) == [k \in 1..N12 |-> Add(QMid(x, i)[k], R(1 + (k % 3)))]
+FcstOf(x, i) == [k \in 1..N12 |-> Add(QMid(x, i)[k], Frac(k % 3, 2))]
+QCases(x, i) == SelectSeq([k \in 1..N12 |-> <<ObsOf(x)[k], FcstOf(x, i)[k], QLow(x, i)[k], QMid(x, i)[k], QHigh(x, i)[k]>>], LAMBDA c : ~IsNaN(c[1]))
 PCases(x, i, t) == [k \in 1..N12 |-> <<ObsOf(x)[k], IF t = 1 THEN C1(x, i)[k] ELSE C2(x, i)[k], One>>]
 PE(x, i, bt, t) == EventPE(PCases(x, i, t), bt, R(t), R(t))
 Variants == {[diagram |-> "reliability", bt |-> b, argv |-> <<"-m", "reliability", "-r", "1", "-b", b>>] : b \in {"below=", "above", "below"}}
@@ -26,6 +32,11 @@ Variants == {[diagram |-> "reliability", bt |-> b, argv |-> <<"-m", "reliability
        \cup {[diagram |-> "roc", bt |-> b, argv |-> <<"-m", "roc", "-r", "1", "-b", b>>] : b \in {"below=", "above"}}
        \cup {[diagram |-> "marginal", bt |-> b, argv |-> <<"-m", "marginal", "-r", "1,2", "-b", b>>] : b \in {"below=", "above"}}
        \cup {[diagram |-> "pithist", bt |-> "none", argv |-> <<"-m", "pithist">>]}
+       \* third tranche
+       \cup {[diagram |-> x, bt |-> b, argv |-> <<"-m", x, "-r", "1", "-b", b>>] : x \in {"murphy", "economicvalue", "bsdecomp", "igncontrib"}, b \in {"below=", "above"}}
+       \cup {[diagram |-> "invreliability", bt |-> "none", argv |-> <<"-m", "invreliability", "-q", "0.5", "-r", "0,1,2,3,4">>]}
+       \cup {[diagram |-> "spreadskill", bt |-> "none", argv |-> <<"-m", "spreadskill", "-r", "1,2,3,4,5">>]}
+       \cup {[diagram |-> "meteo", bt |-> "none", argv |-> <<"-m", "meteo">>]}
 S(label, x, y) == [label |-> label, x |-> x, y |-> y]
 SeriesFor(x, v, closedLast) ==
   CASE v.diagram = "reliability" -> [i \in 1..2 |-> LET r == ReliabilityXY(PE(x, i, v.bt, 1), 5, closedLast) IN S(InputLabel(i), r.x, r.y)]
@@ -35,9 +46,21 @@ SeriesFor(x, v, closedLast) ==
     [] v.diagram = "marginal" -> [i \in 1..2 |-> S(InputLabel(i), <<Q(R(1)), Q(R(2))>>, MarginalY(<<PE(x, i, v.bt, 1), PE(x, i, v.bt, 2)>>))]
                                  \o <<S("obs", <<Q(R(1)), Q(R(2))>>, MarginalObsY(<<PE(x, 2, v.bt, 1), PE(x, 2, v.bt, 2)>>))>>
     [] v.diagram = "pithist" -> [i \in 1..2 |-> S(<<"#bars", i, "">>, <<>>, PitHistY(PitOf(x, i)))]
+    [] v.diagram = "murphy" -> [i \in 1..2 |-> LET r == MurphyXY(PE(x, i, v.bt, 1)) IN S(InputLabel(i), r.x, r.y)]
+    [] v.diagram = "economicvalue" -> [i \in 1..2 |-> LET r == EconomicXY(PE(x, i, v.bt, 1)) IN S(InputLabel(i), r.x, r.y)]
+    [] v.diagram = "bsdecomp" -> [i \in 1..2 |-> LET r == BsDecompXY(PE(x, i, v.bt, 1)) IN S(InputLabel(i), r.x, r.y)]
+    [] v.diagram = "igncontrib" -> [i \in 1..2 |-> LET r == IgnContribXY(PE(x, i, v.bt, 1)) IN S(InputLabel(i), r.x, r.y)]
+    [] v.diagram = "invreliability" -> [i \in 1..2 |-> LET r == InvReliabilityXY(QCases(x, i), [k \in 1..5 |-> R(k - 1)]) IN S(InputLabel(i), r.x, r.y)]
+    [] v.diagram = "spreadskill" -> [i \in 1..2 |-> LET r == SpreadSkillXY(QCases(x, i), [k \in 1..5 |-> R(k)]) IN S(InputLabel(i), r.x, r.y)]
+    \* meteo takes a single input (the first): at the only lead time, the means over the locations of the observations, the forecasts
+    \* (each over its own valid cases) and the three quantiles
+    [] v.diagram = "meteo" -> LET day == <<Q(Frac(1325376000, 86400))>>  valid(s) == SelectSeq(s, LAMBDA w : ~IsNaN(w)) IN
+         <<S("Observed", day, <<Q(MeanSeq(valid(ObsOf(x))))>>), S("Forecast", day, <<Q(MeanSeq(FcstOf(x, 1)))>>),
+           S("10%", day, <<Q(MeanSeq(QLow(x, 1)))>>), S("50%", day, <<Q(MeanSeq(QMid(x, 1)))>>), S("90%", day, <<Q(MeanSeq(QHigh(x, 1)))>>)>>
 InJ(x, i) == [obs |-> [k \in 1..N12 |-> J(ObsOf(x)[k])], c1 |-> [k \in 1..N12 |-> J(C1(x, i)[k])], c2 |-> [k \in 1..N12 |-> J(C2(x, i)[k])],
-              pit |-> [k \in 1..N12 |-> J(PitOf(x, i)[k])]]
-Emit == PrintT(ToJson([diagram |-> d.diagram, argv |-> d.argv, inputs |-> <<InJ(g, 1), InJ(g, 2)>>,
+              pit |-> [k \in 1..N12 |-> J(PitOf(x, i)[k])], fcst |-> [k \in 1..N12 |-> J(FcstOf(x, i)[k])],
+              q |-> [k \in 1..N12 |-> <<J(QLow(x, i)[k]), J(QMid(x, i)[k]), J(QHigh(x, i)[k])>>]]
+Emit == PrintT(ToJson([diagram |-> d.diagram, argv |-> d.argv, files |-> IF d.diagram = "meteo" THEN 1 ELSE 2, inputs |-> <<InJ(g, 1), InJ(g, 2)>>,
                        series |-> SeriesFor(g, d, TRUE),
                        \* F-p1-bin: what the code draws when a probability of exactly 1 falls in no bin (last bin half-open)
                        impl |-> SeriesFor(g, d, FALSE)]))
